@@ -54,7 +54,7 @@ func writeManifest() {
 			Technique: "static analysis: " + p.Technique,
 		})
 	}
-	var nas []na
+	nas := []na{}
 	for i := 1; i <= 20; i++ {
 		id := fmt.Sprintf("C%02d", i)
 		if props.All[id] == nil {
